@@ -79,7 +79,8 @@ def run_case(ctx, case):
         ctx.note('wallet_create_refusal', repr(e)[:200])
         return
     try:
-        _run_requests(ctx, case, w)
+        with wu.deterministic_gc():
+            _run_requests(ctx, case, w)
     finally:
         wu.close_wallet(w)
         try:
@@ -279,8 +280,13 @@ def _validate(ctx, case, rq, w, t, wanted, model, min_conf, dust, netinfo, stage
                 (wnt['addr'], wnt['amount'], [(a, o.value) for a, o in zip(lib_addrs, r.vout)]))
         remaining.remove(hit)
     own = {}
-    for k in w.keys(depth=None if wc['kind'] != 'single' else None):
-        own[k.address] = k
+    try:
+        for k in w.keys():
+            own[k.address] = k
+    except Exception as e:
+        # reading the key list is an observation, not the behaviour under test
+        ctx.refusal('observe.keys.%s' % type(e).__name__)
+        return
     n_change = 0
     for idx in remaining:
         addr = lib_addrs[idx]
